@@ -60,8 +60,10 @@ def parse_case(c):
     v = [int(x) % p for x in t[5:]]
     if piv == 2:
         piv = 1                                       # 2 = the call uses the default argument doPivoting = true
-    if kind in ("X", "Y"):
-        kind = "F" if kind == "X" else "D"            # matrices obtained by conversion / copy: same expectations
+    if kind in ("X", "Y", "Z", "W", "R", "V"):
+        # matrices obtained by conversion / copy / move / swap (X, Y, Z, W), a resized DynamicMatrix with a history (R),
+        # a ScalarMatrixView (V): same expectations as a plain FieldMatrix / DynamicMatrix
+        kind = "F" if kind in ("X", "Z", "V") else "D"
     return p, kind, op, n, piv, v
 
 
@@ -74,11 +76,11 @@ def oracle(case, obs, chk=False):
     main, _, flag = obs.partition(" | ")
     if obs.startswith(("CRASH", "HANG", "NOT-RUN", "BAD-CASE", "UNKNOWN")):
         return ("crash", "impl did not return: %s" % obs)
-    if op in ("solve", "det", "hinv", "hinvT") and flag.strip() != "U":
+    if op in ("solve", "det", "hinv", "hinvT", "solvedyn") and flag.strip() != "U":
         return ("inputs-modified", "A or b modified by %s: %s" % (op, obs))
     ok = main.startswith("OK")
     try:
-        nums = [int(x) for x in main[2:].replace(";", " ").split()] if ok else []
+        nums = [int(x) for x in main[2:].replace(";", " ").split()] if ok and op not in ("seqthrow", "hinvalias") else []
     except ValueError:
         return ("format", "unparsable: %s" % obs)
     if any(x < 0 or x >= p for x in nums):
@@ -93,7 +95,7 @@ def oracle(case, obs, chk=False):
             return None                               # singular diagonal matrix: division by zero, property silent
         if not ok or len(nums) != n:
             return ("nonsingular-error", "nonsingular diagonal matrix but %s" % main)
-        if op == "solve":
+        if op in ("solve", "solvedyn", "solvealias"):
             b = v[n:2 * n]
             return None if all(d[i] * nums[i] % p == b[i] for i in range(n)) else ("wrong-solution", "D x != b: x=%s" % nums)
         if op == "invert":
@@ -104,6 +106,25 @@ def oracle(case, obs, chk=False):
     sing = dA == 0
     if op == "seq":
         return oracle_seq(p, n, piv, A, v[n * n:n * n + n], dA, obs, chk)
+    if op == "hinvalias":
+        return None                                   # invertMatrix(M, M): outside the documented contract, observed only
+    if op == "seqthrow":
+        return oracle_seqthrow(p, n, piv, A, v[n * n:n * n + n], dA, obs)
+    if op in ("solvealias", "solverow"):
+        # A.solve(x, x) / A.solve(x, A[0]): A x = (the right-hand side that was passed); A unchanged
+        if flag.strip() != "U":
+            return ("inputs-modified", "A modified by %s: %s" % (op, obs))
+        b = v[n * n:n * n + n] if op == "solvealias" else A[0]
+        if sing:
+            if n >= 4:
+                return None if main == "EXC FMatrixError" else ("singular-not-reported", "singular %dx%d matrix but %s" % (n, n, main))
+            return None
+        defined = piv or n <= 3 or lead_minors_ok(A, p, n)
+        if not ok:
+            if defined:
+                return ("nonsingular-error", "nonsingular (det %d) and elimination defined, but %s" % (dA, main))
+            return None if main == "EXC FMatrixError" else ("nonsingular-error", main)
+        return None if len(nums) == n and mulmv(A, nums, p) == b else ("wrong-solution", "%s: A*x != b (x = %s, b = %s)" % (op, nums, b))
     if kind == "H":
         if sing:
             return None
@@ -161,6 +182,47 @@ def inv_mod(A, p):
                 f = M[k][c]
                 M[k] = [(x - f * y) % p for x, y in zip(M[k], M[c])]
     return [r[n:] for r in M]
+
+
+def oracle_seqthrow(p, n, piv, A, b, dA, obs):
+    """invert (may throw), then determinant and solve on the same object"""
+    parts = [q.strip() for q in obs.split(";")]
+    if len(parts) != 3:
+        return ("format", obs[:80])
+    sing = dA == 0
+    defined = piv or n <= 3 or lead_minors_ok(A, p, n)
+    if parts[0].startswith("EXC"):
+        if not sing and defined:
+            return ("nonsingular-error", "seqthrow: nonsingular (det %d) but invert: %s" % (dA, parts[0]))
+        if sing and n >= 4:
+            if not parts[0].startswith("EXC FMatrixError"):
+                return ("singular-not-reported", "seqthrow: singular but invert: %s" % parts[0])
+            # the object must still be A: determinant 0, solve reports the singularity again
+            if parts[1] != "OK 0":
+                return ("wrong-det", "seqthrow: after the failed invert determinant gives %s (singular matrix: 0)" % parts[1])
+            if parts[2] != "EXC FMatrixError":
+                return ("singular-not-reported", "seqthrow: after the failed invert solve gives %s" % parts[2])
+        return None
+    if sing:
+        return ("singular-not-reported", "seqthrow: singular matrix inverted: %s" % parts[0][:60]) if n >= 4 else None
+    try:
+        B = [int(x) for x in parts[0][2:].split()]
+        Bm = [B[i * n:(i + 1) * n] for i in range(n)]
+    except Exception:
+        return ("format", obs[:80])
+    I = [[int(i == j) for j in range(n)] for i in range(n)]
+    if len(B) != n * n or mulmm(A, Bm, p) != I:
+        return ("wrong-inverse", "seqthrow: A*B != I")
+    if piv or n <= 3 or lead_minors_ok(Bm, p, n - 1):
+        if parts[1] != "OK %d" % pow(dA, p - 2, p):
+            return ("wrong-det", "seqthrow: determinant of the inverse %s, expected %d" % (parts[1], pow(dA, p - 2, p)))
+    if parts[2].startswith("OK"):
+        x = [int(t) for t in parts[2][2:].split()]
+        if mulmv(Bm, x, p) != b:
+            return ("wrong-solution", "seqthrow: solve with the inverted object: B*x != b")
+    elif piv or n <= 3 or lead_minors_ok(Bm, p, n):
+        return ("nonsingular-error", "seqthrow: solve with the (regular) inverted object: %s" % parts[2])
+    return None
 
 
 def oracle_seq(p, n, piv, A, b, dA, obs, chk):
@@ -339,6 +401,35 @@ def gen(ctx):
                     A2 = rmat(n, p)
                     for piv in (0, 1):
                         cases.append(fmt(p, kind, "seq", n, piv, flat(A2) + [rng.randrange(p) for _ in range(n)]))
+    # ---- dimension audit streams (mutants/C02/API_COVERAGE.md, "Dimension audit")
+    R3 = 8 if quick else 60
+    for n in range(1, 7):
+        for p in PS:
+            for r in range(R3):
+                A = rmat(n, p); b = [rng.randrange(p) for _ in range(n)]
+                kF, kD = ("F", "D") if r % 2 else ("D", "F")
+                for piv in (0, 1):
+                    # (11) aliasing: A.solve(x, x); the right-hand side is a row of the receiver
+                    cases.append(fmt(p, kF, "solvealias", n, piv, flat(A) + b))
+                    cases.append(fmt(p, kD, "solverow", n, piv, flat(A)))
+                # (12) special members: self-assignment, move construction / assignment, swap
+                cases += dense_ops(p, "Z" if r % 2 else "W", n, rmat(n, p), pivs=(r % 2,))
+                # (13) histories: a DynamicMatrix used at size 3, resized, refilled; an object re-used after a throwing invert
+                cases += dense_ops(p, "R", n, rmat(n, p), pivs=(1 - r % 2,))
+                A3 = rmat(n, p)
+                cases.append(fmt(p, kF, "seqthrow", n, r % 2, flat(A3) + [rng.randrange(p) for _ in range(n)]))
+    for p in PS:                                       # (14) roles: ScalarMatrixView as receiver; DiagonalMatrix with DynamicVector / aliased
+        for a in range(p if p == 7 else 4):
+            cases += [fmt(p, "V", "solve", 1, 1, [a, rng.randrange(p)]), fmt(p, "V", "invert", 1, 1, [a]), fmt(p, "V", "det", 1, 1, [a]),
+                      fmt(p, "V", "solvealias", 1, 1, [a, rng.randrange(p)])]
+        for n in range(1, 7):
+            for r in range(3 if quick else 20):
+                d = [(0 if rng.random() < 0.08 else rng.randrange(1, p)) for _ in range(n)]
+                bb = [rng.randrange(p) for _ in range(n)]
+                cases += [fmt(p, "G", "solvedyn", n, 0, d + bb), fmt(p, "G", "solvealias", n, 0, d + bb)]
+        for n in (1, 2, 3):
+            for r in range(4):
+                cases.append(fmt(p, "H", "hinvalias", n, 0, flat(rmat(n, p))))
     # (10) larger sizes (DynamicMatrix): n = 12, 16
     for n in (12, 16):
         for r in range(4 if quick else 20):
@@ -376,7 +467,19 @@ def judge(ctx, cases, mo, io, limit=200, chk=False):
     if chk:
         stats["singular_n<=3_observed_not_judged"] = {}
     for c, m, a in zip(cases, mo, io):
-        mm, _, specdet = m.partition(" # ")
+        mm, _, rest = m.partition(" # ")
+        specdet, _, asis = rest.partition(" # asis ")
+        if asis and not chk:
+            stats["aliased_solve_cases"] = stats.get("aliased_solve_cases", 0) + 1
+            if a.split(" | ")[0] == asis:
+                stats["aliased_solve_impl_equals_asis_model"] = stats.get("aliased_solve_impl_equals_asis_model", 0) + 1
+            if a.split(" | ")[0] == mm.split(" | ")[0]:
+                stats["aliased_solve_impl_equals_patched_model"] = stats.get("aliased_solve_impl_equals_patched_model", 0) + 1
+        if c.split()[2] == "hinvalias":
+            h = stats.setdefault("hinvalias_observed_not_judged", {})
+            k = "n=%s %s" % (c.split()[3], "EXC" if a.startswith("EXC") else "numbers")
+            h[k] = h.get(k, 0) + 1
+            continue
         if chk:
             # the optional DUNE_FMatrix_WITH_CHECKING mode for n <= 3 is outside the property: singular inputs of size <= 3
             # are recorded (what the impl did), never judged and never compared with the model
@@ -570,7 +673,7 @@ def simd_oracle(case, obs):
         info.append((d, lu_sim(A, piv)[0]))
     anysing = any(d == 0 for d, st in info)
     anyzero = any(st != "ok" for d, st in info)
-    if op in ("solve", "invert"):
+    if op in ("solve", "invert") and n >= 4:
         if anysing:
             return None if main == "EXC FMatrixError" else ("simd-singular-lane-not-reported",
                    "lane(s) %s exactly singular (n = %d) but %s" % ([i for i, (d, st) in enumerate(info) if d == 0], n, main[:120]))
@@ -606,6 +709,28 @@ def simd_oracle(case, obs):
 def simd_gen(ctx):
     rng = ctx.rng("simd")
     cases = []
+    # closed forms n = 1, 2, 3 with SIMD lanes (FieldMatrix<LoopSIMD,1,1> specialisation included): regular lanes whose
+    # determinant is +-2^k, so every division of the closed forms is exact
+    for n in (1, 2, 3):
+        pool = []
+        for _ in range(4000):
+            A = [[rng.randrange(-3, 4) for _ in range(n)] for _ in range(n)]
+            d = frac_solve(A, [[0] for _ in range(n)])[0]
+            if d != 0 and _pow2(d):
+                pool.append(A)
+            if len(pool) >= 16:
+                break
+        for kind in ("S2", "S4", "T4"):
+            L = 2 if kind == "S2" else 4
+            for rep in range(3):
+                lanesA = [rng.choice(pool) for _ in range(L)]
+                for op in ("solve", "invert", "det"):
+                    vals = []
+                    for A in lanesA:
+                        vals += [x for r in A for x in r]
+                        if op == "solve":
+                            vals += [rng.randrange(-3, 4) for _ in range(n)]
+                    cases.append("0 %s %s %d %d %s" % (kind, op, n, rep % 2, " ".join(map(str, vals))))
     for n in (4, 5, 6):
         for piv in (0, 1):
             reg, sing = [], {s: [] for s in range(n)}
